@@ -78,13 +78,17 @@ def replay_serializer(rep):
 def run(rep):
     return generic.run_generic(
         rep, [('sqlparse.formatter.validate_options', None)] + SITE_FUNCS[:4] + SITE_FUNCS[-1:] + [('sqlparse.filters.others.SerializerUnicode.process', None),
-              ('sqlparse.filters.others.StripWhitespaceFilter._stripws_default', 'normal form')],
+              ('sqlparse.filters.others.StripWhitespaceFilter._stripws_default', 'normal form'),
+              # the split words of the reindent filters are matched with Token.match(..., regex=True)
+              ('sqlparse.sql.Token.match', 'regex form'), ('sqlparse.sql.Token.__init__', 'body')],
         structural=[replay_serializer, nl_obligations, stack_mapping],
         assumptions=['proved: the serializer joins lines that are right-stripped of every whitespace character (element '
                      'obligation of the real generator expression; str.rstrip() axiomatised as s == r ++ ws*, r not ending in '
                      'a str.isspace character); StripWhitespaceFilter.process is total also on an empty statement; _stripws_default '
                      'blanks a whitespace child that is first or follows a whitespace child and turns every other one into exactly '
-                     'one blank (loop invariant over the list order)',
+                     'one blank (loop invariant over the list order); Token.match(..., regex=True), by which the reindent filters '
+                     'recognise their split words, searches the NORMALIZED text (Token.__init__: upper-cased, inner whitespace '
+                     'collapsed), so a clause keyword is found however it is spelled',
                      'per-function normal forms (_stripws_default, _stripws_parenthesis, _stripws_identifierlist, '
                      'SpacesAroundOperatorsFilter._process, _split_kwds) are not yet under SMT contracts: shape obligations '
                      'over the AST plus the bounded stand-in (normal-form oracles on grammar scripts, fixed points)',
